@@ -1,16 +1,12 @@
 #!/bin/bash
-# usage: tools/round4.sh NN  — confirm the round-5 change of property CNN in a scratch worktree, then run CNN's quick check against it
+# usage: tools/round5.sh NN  — confirm the round-5 change of property CNN in a scratch worktree, then run CNN's quick
+# check against it in isolation (tools/mutant_iso.py: /repo is not touched)
 n=$1
-python3 /verif/tools/confirm_mutant.py /tmp/mut5out/c$n A C$n-H || exit 1
+python3 /verif/tools/confirm_mutant.py /tmp/mut5out/c$n A C$n-H | cut -c1-300 || exit 1
 python3 - <<PY
 import json,sys
 m=json.load(open('/verif/seeded/C$n-H/meta.json'))
-print('confirmed' if m['confirmation'].get('confirmed') else 'NOT CONFIRMED', json.dumps(m['confirmation'])[:1500])
+print('confirmed' if m['confirmation'].get('confirmed') else 'NOT CONFIRMED')
 PY
-python3 /verif/tools/eval_seeded.py C$n-H
-python3 - <<PY
-import json
-e=json.load(open('/verif/seeded/C$n-H/eval.json'))[-1]
-print(json.dumps(e)[:1500])
-PY
-git -C /repo status --short | head -3
+git -C /repo worktree remove --force /tmp/mut5/c$n 2>/dev/null
+python3 /verif/tools/mutant_iso.py C$n-H | tail -3
